@@ -113,6 +113,27 @@ class Run(object):
                 samples.append({"rule": o["rule"], "site": o["site"], "verdict": o["status"], "witness": o["detail"]})
         total = len(self.obligations)
         discharged = sum(1 for o in self.obligations if o["status"] == "ok")
+        try:
+            from .cfg import BUILT
+            kinds = {}
+            n_calls = 0
+            for qn, lst in self.res._callees.items():
+                for call, tg, kind in lst:
+                    kinds[kind] = kinds.get(kind, 0) + 1
+                    n_calls += 1
+            self.units.update({
+                "modules_parsed": len(self.repo.modules),
+                "pxd_files": sum(1 for m in self.repo.modules.values() if m.pxd is not None),
+                "functions_in_package": sum(1 for _ in self.repo.all_functions()),
+                "cfgs_built": len(BUILT),
+                "cfg_nodes": sum(v[0] for v in BUILT.values()),
+                "cfg_edges": sum(v[1] for v in BUILT.values()),
+                "call_sites_classified": n_calls,
+                "call_sites_by_kind": kinds,
+                "helpers_inlined": dict((m.name, sorted(x for v in m.inlined.values() for x in v)) for m in self.repo.modules.values() if m.inlined),
+            })
+        except Exception:
+            pass
         cov = {
             "explanation": self.extra.get("explanation", ""),
             "obligations": total,
